@@ -123,17 +123,19 @@ def relKey : V → Option (String × List String)
 
 /-- relationBuilder.Add for every member in order: the builder of a bucket is created from the first tuple that
 arrives (TupleOrderedNames), every later tuple must have all of its names -/
+def relAddOne (seen : List (String × List String)) (v : V) : Outcome (List (String × List String)) :=
+  match relKey v with
+  | none => ok seen
+  | some (k, ns) =>
+    match seen.find? (fun e => e.1 == k) with
+    | none => ok (seen ++ [(k, ns)])
+    | some first =>
+      if first.2.all (fun n => ns.contains n) then ok seen
+      else panic .relBuilderGet                          -- t.MustGet(name)
+
 def relAdd (seen : List (String × List String)) : List V → Outcome Unit
   | [] => ok ()
-  | v :: rest =>
-    match relKey v with
-    | none => relAdd seen rest
-    | some (k, ns) =>
-      match seen.find? (fun e => e.1 == k) with
-      | none => relAdd (seen ++ [(k, ns)]) rest
-      | some first =>
-        if first.2.all (fun n => ns.contains n) then relAdd seen rest
-        else panic .relBuilderGet                        -- t.MustGet(name)
+  | v :: rest => (relAddOne seen v).bind (fun seen' => relAdd seen' rest)
 
 /-- KF-relation-bucket, shape: two members whose name lists differ although they join to the same key -/
 def clashPair (a b : V) : Bool :=
@@ -450,10 +452,10 @@ def eval : E → Outcome V
   | .num n => ok (.num n)
   | .str cs => ok (V.mkStr cs)
   | .tuple kvs => (evalAttrs kvs).bind newTuple
-  | .set xs => (evalList xs).bind newSet
+  | .set xs => (evalSetFrom [] xs).bind (fun vs => ok (V.mkSet vs))
   | .arr xs => (evalList xs).bind (fun vs => ok (V.mkArr vs))
   | .dict kvs => (evalPairs kvs).bind newDictLit
-  | .rel hd rows => (evalRel hd rows).bind newSet
+  | .rel hd rows => (evalRelFrom hd [] rows).bind (fun ts => ok (V.mkSet ts))
   | .bin op a b => (eval a).bind (fun va =>
       if op == .offset && !isNum va then err             -- OffsetExpr.Eval tests the offset before it evaluates the array
       else (eval b).bind (fun vb => binVals op va vb))
@@ -475,13 +477,35 @@ def evalPairs : List (E × E) → Outcome (List (V × V))
   | [] => ok []
   | (k, e) :: rest =>
     (eval k).bind (fun kv => (eval e).bind (fun v => (evalPairs rest).bind (fun vs => ok ((kv, v) :: vs))))
-/-- the rows of a relation literal are tuple expressions: the parts of a row are evaluated, its tuple is built, then
-the next row -/
-def evalRel (hd : List String) : List (List E) → Outcome (List V)
+/-- SetExpr.Eval (and the fold in NewSetExpr): every element is evaluated and handed to the SetBuilder before the
+next one is looked at -/
+def evalSetFrom (seen : List (String × List String)) : List E → Outcome (List V)
+  | [] => ok []
+  | e :: rest =>
+    (eval e).bind (fun v => (relAddOne seen v).bind (fun seen' =>
+      (evalSetFrom seen' rest).bind (fun vs => ok (v :: vs))))
+/-- the rows of a relation literal are tuple expressions in a set expression: the parts of a row are evaluated, its
+tuple is built and added, then the next row -/
+def evalRelFrom (hd : List String) (seen : List (String × List String)) : List (List E) → Outcome (List V)
   | [] => ok []
   | r :: rest =>
-    (evalList r).bind (fun vs => (relRow hd vs).bind (fun t => (evalRel hd rest).bind (fun ts => ok (t :: ts))))
+    (evalList r).bind (fun vs => (relRow hd vs).bind (fun t => (relAddOne seen t).bind (fun seen' =>
+      (evalRelFrom hd seen' rest).bind (fun ts => ok (t :: ts)))))
 end
+
+/-- the values of the elements up to the first one that does not evaluate to a value -/
+def okPrefix : List E → List V
+  | [] => []
+  | e :: rest => match eval e with
+    | .ok v => v :: okPrefix rest
+    | _ => []
+
+/-- the row tuples up to the first row that does not produce one -/
+def okRows (hd : List String) : List (List E) → List V
+  | [] => []
+  | r :: rest => match (evalList r).bind (relRow hd) with
+    | .ok t => t :: okRows hd rest
+    | _ => []
 
 /-! ## compile time: constant folding
 
@@ -618,12 +642,10 @@ def trig : E → Bool
   | .num _ => false
   | .str _ => false
   | .tuple kvs => trigAttrs kvs || (match evalAttrs kvs with | .ok as => pinnedTuple as | _ => false)
-  | .set xs => trigList xs || (match evalList xs with | .ok vs => bucketClash vs | _ => false)
+  | .set xs => trigList xs || bucketClash (okPrefix xs)
   | .arr xs => trigList xs
   | .dict kvs => trigPairs kvs
-  | .rel hd rows => trigRows rows || pinnedRows hd rows || (match evalRel hd rows with
-      | .ok ts => bucketClash ts
-      | _ => false)
+  | .rel hd rows => trigRows rows || pinnedRows hd rows || bucketClash (okRows hd rows)
   | .bin op a b => trig a || trig b || (match eval a, eval b with
       | .ok va, .ok vb => binTrig op va vb
       | _, _ => false)
